@@ -451,7 +451,9 @@ def write_replay(prop, meta, plan, viol, digest):
     doc = dict(meta)
     doc.update(property=prop, plan=plan, violation=viol, digest=digest)
     with open(path, 'w') as f:
-        json.dump(doc, f, indent=1, sort_keys=True, default=_json_default)
+        # member order is kept as the plan has it: where order carries meaning (the "first" of several non-preferred hash
+        # algorithms, the order of keyword arguments) a re-sorted replay file would not be the run it records
+        json.dump(doc, f, indent=1, sort_keys=False, default=_json_default)
     return path
 
 
